@@ -18,7 +18,8 @@ PROOF_TARGETS = ["Props/C19.vo"]
 PROPS_FILE = "Props/C19.v"
 PROPS_MODULE = "Props.C19"
 RULE = ("seeded generator of charts built from objects: 1..7 tempo points (plus a few 18..30-row charts), bpm values drawn with "
-        "repetition from base*2^k families (exact stream) or arbitrary floats (rounded stream), 0..6 SVs (osu/Quaver) that may "
+        "repetition from base*2^k families (exact stream) or arbitrary floats (rounded stream), a quarter of the charts with crawl "
+        "(1-12 bpm) / teleport (10^5 .. 2*10^6 bpm) tempo points so that normalising multipliers leave 0.01x..10x, 0..6 SVs (osu/Quaver) that may "
         "coincide with tempo points / each other / lie before the first tempo point or after the last note, 1..5 notes "
         "(hits, holds, StepMania mines), rows sorted or shuffled, default / permuted / duplicate row labels, int or float "
         "columns, optional override bpm; three call kinds (dominant_bpm on 5 games, scroll_speed on 5 games, sv_normalize on "
